@@ -14,6 +14,8 @@ import sys
 import time
 from pathlib import Path
 
+sys.set_int_max_str_digits(0)
+
 VERIF = Path(__file__).resolve().parent.parent
 REPO = Path(os.environ.get("DLTYPE_REPO", "/repo"))
 COQ = VERIF / "coq"
@@ -171,6 +173,109 @@ class Model:
             self.p.kill()
 
 
+class ImplWorker:
+    """Runs implementation-side tasks in a child interpreter; a task that does not answer within its
+    timeout is reported as {"__timeout__": True} and the child is replaced."""
+
+    def __init__(self, module: str, start_timeout: float = 240.0) -> None:
+        self.module = module
+        self.start_timeout = start_timeout
+        self.p = None
+        self.buf = b""
+        self.restarts = 0
+        self._start()
+
+    def _readline(self, timeout: float) -> str | None:
+        """One line from the child's stdout or None on timeout / EOF (own buffering: select-safe)."""
+        import select
+
+        deadline = time.time() + timeout
+        fd = self.p.stdout.fileno()
+        while b"\n" not in self.buf:
+            left = deadline - time.time()
+            if left <= 0:
+                return None
+            r, _, _ = select.select([fd], [], [], left)
+            if not r:
+                return None
+            chunk = os.read(fd, 1 << 16)
+            if not chunk:
+                return None
+            self.buf += chunk
+        line, self.buf = self.buf.split(b"\n", 1)
+        return line.decode()
+
+    def _start(self) -> None:
+        self.buf = b""
+        self.p = subprocess.Popen(
+            [PY, "-m", "harness.worker", self.module], stdin=subprocess.PIPE, stdout=subprocess.PIPE,
+            stderr=subprocess.DEVNULL, env=dict(os.environ), cwd=str(VERIF),
+        )
+        if self._readline(self.start_timeout) != "READY":
+            raise RuntimeError(f"worker for {self.module} did not start")
+
+    def _restart(self) -> None:
+        try:
+            self.p.kill()
+            self.p.wait()
+        except Exception:  # noqa: BLE001
+            pass
+        self.restarts += 1
+        self._start()
+
+    def call(self, func: str, arg, timeout: float = 20.0):
+        return self.call_many(func, [arg], timeout=timeout, max_timeouts=1)[0]
+
+    def call_many(self, func: str, args: list, timeout: float = 10.0, max_timeouts: int = 3) -> list:
+        """Results in order; a task that does not answer in time is marked {"__timeout__": True} and the
+        child replaced; after max_timeouts of those the rest is not run ({"__skipped__": True})."""
+        import threading
+
+        results: list = []
+        n_timeouts = 0
+        i = 0
+        while i < len(args):
+            proc = self.p
+            data = "".join(json.dumps({"f": func, "a": a}) + "\n" for a in args[i:]).encode()
+
+            def feed(proc=proc, data=data) -> None:
+                try:
+                    proc.stdin.write(data)
+                    proc.stdin.flush()
+                except Exception:  # noqa: BLE001
+                    pass
+
+            th = threading.Thread(target=feed, daemon=True)
+            th.start()
+            broke = False
+            while i < len(args):
+                line = self._readline(timeout)
+                if line is None:
+                    results.append({"__timeout__": True})
+                    i += 1
+                    n_timeouts += 1
+                    self._restart()
+                    broke = True
+                    if n_timeouts >= max_timeouts:
+                        results += [{"__skipped__": True}] * (len(args) - i)
+                        i = len(args)
+                    break
+                d = json.loads(line)
+                results.append(d if "__error__" in d else d["r"])
+                i += 1
+            th.join(timeout=5)
+            if not broke:
+                break
+        return results
+
+    def close(self) -> None:
+        try:
+            self.p.stdin.close()
+            self.p.wait(timeout=10)
+        except Exception:  # noqa: BLE001
+            self.p.kill()
+
+
 def sx_str(s: str) -> str:
     return "s" + s.encode("latin-1").hex()
 
@@ -245,14 +350,18 @@ class Report:
         return False
 
     def violation(self, what: dict) -> None:
-        if len(self.violations) < 20:
+        if len(self.violations) < 5000:
             self.violations.append(what)
         self.count("violations")
 
     def disagreement(self, what: dict) -> None:
-        if len(self.disagreements) < 20:
+        if len(self.disagreements) < 5000:
             self.disagreements.append(what)
         self.count("disagreements")
+
+    def many_violations(self) -> bool:
+        """Checks may stop early once plenty of failing inputs are in hand."""
+        return len(self.violations) >= 200
 
     def finish(self, proof: dict | None, extra: dict | None = None) -> int:
         """Write evidence, print KNOWN-FINDING / VIOLATION lines, return the exit code."""
@@ -261,6 +370,10 @@ class Report:
             print(f"KNOWN-FINDING: property={self.prop} {hit['finding']['what']} (seen {hit['count']}x this run)")
         rc = 0
         replay_path = None
+        # smallest failing inputs first: the replay file keeps the 20 shortest of each kind
+        keyf = lambda d: len(json.dumps(d, default=str))  # noqa: E731
+        self.violations = sorted(self.violations, key=keyf)[:20]
+        self.disagreements = sorted(self.disagreements, key=keyf)[:20]
         proof_broken = proof is not None and not proof.get("compiled", False)
         if self.violations or self.disagreements or proof_broken:
             REPLAYS.mkdir(exist_ok=True)
